@@ -60,6 +60,17 @@ type c17Scen struct {
 	// Bulk (optional, at the end): client (Node, Client) subscribes to N fresh filters with ONE SUBSCRIBE packet - a
 	// backlog of N events for every peer in one go; then node From publishes to every one of them
 	Bulk *c17Bulk `json:"bulk,omitempty"`
+	// LateJoin (optional): the last node joins after the others are up. While it joins (handshake and full
+	// synchronisation towards it), a client on node 0 subscribes to N fresh topics one by one, with Retained retained
+	// messages on node 0 to stretch the synchronisation; afterwards the late node publishes to every one of the topics:
+	// each must reach the subscriber on node 0 exactly once.
+	LateJoin *c17LateJoin `json:"late_join,omitempty"`
+}
+
+type c17LateJoin struct {
+	N        int `json:"count"`
+	Retained int `json:"retained"`
+	GapUs    int `json:"gap_us"`
 }
 
 type c17Bulk struct {
@@ -129,6 +140,10 @@ func genC17(t *rapid.T) c17Scen {
 		s.Changes = append(s.Changes, ch)
 	}
 	s.Pubs2 = genC17Pubs(t, s.Nodes, 2, 6)
+	if rapid.IntRange(0, 3).Draw(t, "late_join") == 0 {
+		s.LateJoin = &c17LateJoin{N: rapid.IntRange(10, 60).Draw(t, "lj_n"), Retained: rapid.SampledFrom([]int{0, 300, 1500, 3000}).Draw(t, "lj_retained"),
+			GapUs: rapid.SampledFrom([]int{0, 50, 500}).Draw(t, "lj_gap")}
+	}
 	for i := range s.Pubs2 {
 		// half of the second round repeats a publish of the first round (same origin, same topic)
 		if rapid.Bool().Draw(t, "repeat") {
@@ -288,7 +303,11 @@ func (r *c17Run) subscribe(cs c17Sub) *ev.Violation {
 }
 
 func runC17(s c17Scen, c *ev.Case) (out *ev.Violation) {
-	cluster, err := fixture.StartFedCluster(s.Nodes, func(i int, o *fixture.FedNodeOpts) {
+	first := s.Nodes
+	if s.LateJoin != nil && s.Nodes >= 2 {
+		first = s.Nodes - 1
+	}
+	cluster, err := fixture.StartFedCluster(first, func(i int, o *fixture.FedNodeOpts) {
 		o.Modify = func(cfg *config.Config) { cfg.MQTT.DeliveryMode = s.Mode }
 	})
 	if err != nil {
@@ -309,6 +328,76 @@ func runC17(s c17Scen, c *ev.Case) (out *ev.Violation) {
 		}
 		stopFedLater(cluster.StopQuietly)
 	}()
+	var ljClient *fixture.Client
+	var ljTopics []string
+	if first < s.Nodes {
+		lj := s.LateJoin
+		if lj.N < 1 || lj.N > 200 || lj.Retained < 0 || lj.Retained > 5000 {
+			return harnessErr("bad late join")
+		}
+		n0 := cluster.Nodes[0]
+		if err := cluster.WaitMesh(15 * time.Second); err != nil {
+			return harnessErr("mesh: %v", err)
+		}
+		cl, ack, err := n0.Connect(fixture.ConnectOpts{ID: "lj", V: mw.V5, CleanStart: true, AutoAck: true})
+		if err != nil || ack.ReasonCode != 0 {
+			return harnessErr("connect: %v %v", ack, err)
+		}
+		ljClient = cl
+		defer cl.Kill()
+		if err := subscribeSentinel(cl); err != nil {
+			return harnessErr("%v", err)
+		}
+		for k := 0; k < lj.Retained; k++ {
+			if err := cl.Send(&mw.Packet{Type: mw.PUBLISH, Topic: fmt.Sprintf("$ljr/%d", k), Retain: true, Payload: []byte("kept")}); err != nil {
+				return harnessErr("retained preload: %v", err)
+			}
+		}
+		if err := cl.Ping(20 * time.Second); err != nil {
+			return harnessErr("retained preload: %v", err)
+		}
+		lateName := fmt.Sprintf("n%d", first)
+		burst := make(chan *ev.Violation, 1)
+		go func() {
+			if !fixture.PollUntilEvery(50*time.Microsecond, 20*time.Second, func() bool {
+				for _, p := range n0.Fed.VerifPeers() {
+					if p == lateName {
+						return true
+					}
+				}
+				return false
+			}) {
+				burst <- nil // the join itself failed; reported below
+				return
+			}
+			for k := 0; k < lj.N; k++ {
+				f := fmt.Sprintf("lj/%d", k)
+				if code, err := subscribeOne(cl, uint16(1000+k), subSpec{Filter: f, QoS: 1}); err != nil || code != 1 {
+					burst <- harnessErr("late join burst: SUBSCRIBE %q: code %#x err %v", f, code, err)
+					return
+				}
+				ljTopics = append(ljTopics, f)
+				if lj.GapUs > 0 {
+					time.Sleep(time.Duration(lj.GapUs) * time.Microsecond)
+				}
+			}
+			burst <- nil
+		}()
+		var join []string
+		for _, n := range cluster.Nodes {
+			join = append(join, n.GossipAddr)
+		}
+		late, err := fixture.StartFedNode(fixture.FedNodeOpts{Name: lateName, Join: join, Modify: func(cfg *config.Config) { cfg.MQTT.DeliveryMode = s.Mode }})
+		if err != nil {
+			<-burst
+			return harnessErr("start late node: %v", err)
+		}
+		cluster.Nodes = append(cluster.Nodes, late)
+		if v := <-burst; v != nil {
+			return v
+		}
+		c.Label("late_join")
+	}
 	if err := cluster.WaitMesh(15 * time.Second); err != nil {
 		return harnessErr("mesh: %v", err)
 	}
@@ -343,6 +432,65 @@ func runC17(s c17Scen, c *ev.Case) (out *ev.Violation) {
 			return harnessErr("publisher connect: %v %v", ack, err)
 		}
 		r.pubs = append(r.pubs, p)
+	}
+	if ljClient != nil {
+		late := cluster.Nodes[len(cluster.Nodes)-1]
+		n0 := cluster.Nodes[0]
+		want := append([]string(nil), ljTopics...)
+		// give the synchronisation time to finish; what is still missing then shows in the deliveries
+		fixture.PollUntil(10*time.Second, func() bool {
+			have := map[string]bool{}
+			for _, f := range late.Fed.VerifFedSubs(n0.Name) {
+				have[f] = true
+			}
+			for _, f := range want {
+				if !have[f] {
+					return false
+				}
+			}
+			return n0.Drained()
+		})
+		lp := r.pubs[len(r.pubs)-1]
+		for k, f := range want {
+			r.pid++
+			if _, err := lp.Publish(&mw.Packet{Topic: f, QoS: 1, PacketID: r.pid, Payload: []byte(fmt.Sprintf("lj-%d", k))}); err != nil {
+				return harnessErr("late join publish: %v", err)
+			}
+		}
+		if err := late.WaitDrained(15 * time.Second); err != nil {
+			return harnessErr("late node: %v", err)
+		}
+		if err := sentinelBarrier(n0.Broker, []*fixture.Client{ljClient}, "lj"); err != nil {
+			return harnessErr("%v", err)
+		}
+		seen := map[string]int{}
+		for _, rc := range ljClient.All() {
+			if rc.P.Type == mw.PUBLISH && !isSentinel(rc.P) {
+				seen[string(rc.P.Payload)]++
+			}
+		}
+		var missing []string
+		for k, f := range want {
+			switch n := seen[fmt.Sprintf("lj-%d", k)]; {
+			case n == 0:
+				missing = append(missing, f)
+			case n > 1:
+				return ev.Violf("C17.late-join-delivery", "message published on the late node to %q was delivered %d times to its subscriber on node 0", f, n)
+			}
+		}
+		if len(missing) > 0 {
+			view := late.Fed.VerifFedSubs(n0.Name)
+			return ev.Violf("C17.late-join-delivery", "%d of %d topics a client on node 0 subscribed to while node %s was joining (%d retained messages on node 0) never got the message the late node published to them afterwards, e.g. %v; the late node's view of node 0 has %d filters", len(missing), len(want), late.Name, s.LateJoin.Retained, clipStrs(missing, 5), len(view)).
+				With("retained", s.LateJoin.Retained, "missing", len(missing))
+		}
+		r.nontrivial = true
+		c.Label("late_join_deliveries_checked")
+		c.Count("late_join_topics", len(want))
+		// the helper client leaves (clean session): node 0's local set is the model's again
+		ljClient.Disconnect()
+		if !waitSessionGone(n0.Broker, "lj") {
+			return harnessErr("session lj still present")
+		}
 	}
 	for _, cs := range s.Subs {
 		if v := r.subscribe(cs); v != nil {
